@@ -29,7 +29,7 @@ StartOf(c) == CASE c = "num1" -> 1 [] c = "num5" -> 5 [] OTHER -> 0
 IdOf(a)    == CASE a = "1" -> 1 [] a = "2" -> 2 [] a = "3" -> 3 [] OTHER -> 0
 
 \* operation names
-RegOps   == {"AddFootnote", "AddEndnote", "RemoveFootnote", "RemoveEndnote", "AddListItem", "RestartNumbering"}
+RegOps   == {"AddFootnote", "AddFootnoteToRun", "AddEndnote", "RemoveFootnote", "RemoveEndnote", "AddListItem", "RestartNumbering"}
 LocOps   == {"AddParagraph", "AddTable", "AddImage", "AddHeader", "AddFooter", "AddStyle", "GenerateTOC",
              "SetPageMargins", "SetFootnoteConfig", "RenderTextTemplate", "ConvertMd", "ToBytes", "Save", "Open"}
 AllOps   == RegOps \cup LocOps
@@ -55,7 +55,7 @@ HasKey(S, k) == \E x \in S : x.key = k
 AbsIdOfKey(S, k) == (CHOOSE x \in S : x.key = k).id
 
 RegApply(R, d, o) ==
-  CASE o.op = "AddFootnote" ->
+  CASE o.op \in {"AddFootnote", "AddFootnoteToRun"} ->
          [R EXCEPT !.fn = StoreId(@, [id |-> R.fnNext, own |-> d]), !.fnNext = @ + 1]
     [] o.op = "AddEndnote" ->
          [R EXCEPT !.en = StoreId(@, [id |-> R.enNext, own |-> d]), !.enNext = @ + 1]
@@ -95,7 +95,7 @@ Touch(L) == IF L.sect THEN L ELSE [L EXCEPT !.sect = TRUE, !.nbody = @ + 1]
 
 \* R = registry before the call, R2 = registry after it
 LocApply0(L, R, R2, d, o) ==
-  CASE o.op = "AddFootnote" ->
+  CASE o.op \in {"AddFootnote", "AddFootnoteToRun"} ->   \* ToRun: a new paragraph whose run gets the reference
          [L EXCEPT !.nbody = @ + 1, !.fnRef = Append(@, R.fnNext), !.fnHas = TRUE, !.fnPart = R2.fn]
     [] o.op = "AddEndnote" ->
          [L EXCEPT !.nbody = @ + 1, !.enRef = Append(@, R.enNext), !.enHas = TRUE, !.enPart = R2.en]
